@@ -25,6 +25,9 @@
 //                                |sl (pools: <per> independent rounds, fresh pool each, of: hold one Submit at its FIRST
 //                                 ctx.Done() — after the closed check, before slot/lock — Close completely, release;
 //                                 the log of the first round with a stranded task, else of the last round, is returned)
+//                                |ws (mailbox: Close runs inside the Observer's admission callback of a Submit to an idle
+//                                 shard, i.e. after the item is queued and the shard marked scheduled, before the drain is
+//                                 invoked — Close must already be waiting for that drain)
 //                                |dd|dn (mailbox: item admitted in the drain window, its handler blocked, another item
 //                                 submitted meanwhile — must not start a second drain; dn = same without the hold)
 //      cancel bit 1 = CancelAcceptedOnClose + hook, bit 2 = CancelRunningOnClose   mode try|wait
@@ -84,6 +87,9 @@ func genC37(g *Gen) {
 			emit("mb", "wn", 0, 1+i%2, 4, 1+i%3, 1+i%2, 0, 1, 1+i, "try", 0, 0, 0)
 			emit("bp", "sc", 0, 1+i%2, 4, 1, 1, 0, 1, 1+i, []string{"try", "wait"}[i%2], 0, 0, 0)
 			emit("bp", "sn", 0, 1+i%2, 4, 1, 1, 0, 1, 1+i, []string{"try", "wait"}[i%2], 0, 0, 0)
+		}
+		for i := 0; i < 3; i++ {
+			emit("mb", "ws", 0, 1+i%2, 4, 1+i, 1, 0, 1, 1+i, "try", 0, 0, 0)
 		}
 		for i := 0; i < 3; i++ {
 			emit("mb", "dd", 0, 2+i%2, 4, 1+i%2, 1+i%2, 0, 1, 1+i, "try", 0, 0, 0)
@@ -292,6 +298,7 @@ func (c *c37Ctx) Done() <-chan struct{} {
 }
 
 type c37MailboxObserver struct {
+	onAdmit atomic.Pointer[func()] // one-shot action run inside the next successful admission observation
 	log    *c37Log
 	mu     sync.Mutex
 	phase  map[int]int
@@ -300,6 +307,12 @@ type c37MailboxObserver struct {
 }
 
 func (o *c37MailboxObserver) ObserveShardedMailbox(obs workqueue.ShardedMailboxObservation) {
+	if obs.Kind == "admission" && obs.Result == "ok" {
+		if fn := o.onAdmit.Swap(nil); fn != nil {
+			(*fn)()
+		}
+		return
+	}
 	if obs.Kind != "worker" || obs.Shard < 0 {
 		return
 	}
@@ -783,6 +796,42 @@ func (s *c37Scn) runSubmitLoop() string {
 	return last.render()
 }
 
+// runMailboxSubmitWindow: a Submit to an idle shard is delayed inside the Observer's admission callback (the item
+// is queued, the shard is marked scheduled, the drain is not yet invoked) while Close is called and given time to
+// return.  Close must already be bound to that drain (wg.Add under the shard lock), so it cannot return before the
+// item ran; the delay is bounded (100 ms) and only delays the submitting goroutine.
+func (s *c37Scn) runMailboxSubmitWindow(obs *c37MailboxObserver) {
+	accepted := map[int]bool{}
+	next := 0
+	for i := 0; i < s.per-1; i++ { // earlier traffic; the shard is idle again afterwards
+		if s.doSubmit(context.Background(), next, false) == nil {
+			accepted[next] = true
+		}
+		next++
+	}
+	s.waitAllAcceptedDone(nil, accepted)
+	closed := make(chan struct{})
+	fn := func() {
+		go func() { s.doClose(context.Background()); close(closed) }()
+		t := time.NewTimer(100 * time.Millisecond)
+		select {
+		case <-closed:
+		case <-t.C:
+		}
+		t.Stop()
+	}
+	obs.onAdmit.Store(&fn)
+	if s.doSubmit(context.Background(), next, false) != nil {
+		if obs.onAdmit.Swap(nil) != nil { // refused before the window: close normally
+			go func() { s.doClose(context.Background()); close(closed) }()
+		}
+	}
+	next++
+	<-closed
+	_ = s.doSubmit(context.Background(), next, false)
+	s.settle()
+}
+
 // runSubmitSelect: hold one Submit right before its final select (after the closed
 // check and the slot acquisition); (sc) Close completely meanwhile, or (sn) not.
 func (s *c37Scn) runSubmitSelect(hold *c37Hold) {
@@ -877,7 +926,7 @@ func (*c37Runner) Step(op string) string {
 	if s.prod*s.per > 256 || s.workers < 1 || s.queue < 1 || s.shards < 1 {
 		return "bad-op"
 	}
-	okSteer := map[string][]string{"bp": {"none", "sc", "sn", "sl"}, "bbp": {"none", "sc", "sn", "sl"}, "wq": {"none"}, "mb": {"none", "wc", "wn", "dd", "dn"}}
+	okSteer := map[string][]string{"bp": {"none", "sc", "sn", "sl"}, "bbp": {"none", "sc", "sn", "sl"}, "wq": {"none"}, "mb": {"none", "wc", "wn", "dd", "dn", "ws"}}
 	valid := false
 	for _, st := range okSteer[s.kind] {
 		valid = valid || st == s.steer
@@ -891,7 +940,7 @@ func (*c37Runner) Step(op string) string {
 	var hold *c37Hold
 	var obs *c37MailboxObserver
 	s.gateTask.Store(-1)
-	if s.steer != "none" && s.steer != "dn" {
+	if s.steer != "none" && s.steer != "dn" && s.steer != "ws" {
 		hold = newC37Hold(s.log, 2*time.Second)
 	}
 	if s.steer == "dd" || s.steer == "dn" {
@@ -913,6 +962,8 @@ func (*c37Runner) Step(op string) string {
 		s.runSubmitSelect(hold)
 	case "dd", "dn":
 		s.runMailboxDoubleDrain(hold)
+	case "ws":
+		s.runMailboxSubmitWindow(obs)
 	}
 	return s.log.render()
 }
